@@ -12,6 +12,8 @@ EXPLANATION = ("C02: the decoder's structure is compared with the frozen v3 tabl
 NOT_DECIDED = "equality with an independent decoder on all documents (value-level)."
 
 RULES = {
+    "C02.RW": lambda ctx: __import__("rules.foundations", fromlist=["x"]).wire_types_derived_only(ctx, "C02.RW"),
+    "C02.R12": lambda ctx: decoderrules.rejections_exact(ctx, "C02.R12"),
     "C02.RG": lambda ctx: __import__("rules.foundations", fromlist=["x"]).no_global_state(ctx, "C02.RG"),
     "C02.R11": lambda ctx: __import__("rules.decoderrules", fromlist=["x"]).hermes_regular_part(ctx, "C02.R11"),
     # the data-URL entry point: preamble and alphabet of the reader
